@@ -30,3 +30,29 @@ pub fn derive_parameters(
         decoder_memory_requirement,
     )
 }
+
+// Observer for SymbolSlab::get_pair_mut: (data length, symbol count, symbol size, dest offset, src offset) of
+// every paired borrow, recorded per thread while enabled.
+#[cfg(feature = "std")]
+std::thread_local! {
+    static SLAB_EVENTS: std::cell::RefCell<Option<std::vec::Vec<[usize; 5]>>> = const { std::cell::RefCell::new(None) };
+}
+
+#[cfg(feature = "std")]
+pub fn slab_observe(enable: bool) {
+    SLAB_EVENTS.with(|e| *e.borrow_mut() = if enable { Some(std::vec::Vec::new()) } else { None });
+}
+
+#[cfg(feature = "std")]
+pub fn slab_take_events() -> std::vec::Vec<[usize; 5]> {
+    SLAB_EVENTS.with(|e| e.borrow_mut().as_mut().map(std::mem::take).unwrap_or_default())
+}
+
+#[cfg(feature = "std")]
+pub(crate) fn slab_pair_event(data_len: usize, count: usize, ss: usize, dest_start: usize, src_start: usize) {
+    SLAB_EVENTS.with(|e| {
+        if let Some(v) = e.borrow_mut().as_mut() {
+            v.push([data_len, count, ss, dest_start, src_start]);
+        }
+    });
+}
